@@ -24,6 +24,7 @@ EXPLANATION = (
     " R3 also covers polars: a null check output is decided before the verdict on every path (True under ignore_na, False otherwise), the failure cases are selected with the same decided output that gives the verdict, and pandas per-column preprocessing drops nulls of the checked column only (never row-wise from the whole table). " 
     "NOT decided: the metamorphic equalities over predicates and data."
     ' R3 (pandas null outputs): in postprocess_field every path to the `.all()` verdict passes `fillna(False)` (a `hasnans`-guarded fill counts), so <NA> outputs of nullable dtypes fail under ignore_na=False as NaN does. R3 (null-aware paths): every value returned by a field-level preprocess function (the targets `preprocess` dispatches to for a Series or with the `key` of a column) is produced with ignore_na consulted - by a guard, a reaching definition under a guard, or a private helper that reads it - so the groupby branch drops the nulls of each group too; guards of conditional expressions are part of every path condition.'
+    ' R6 (keys): every len(key) / key[0] on a group key in _format_groupby_input is guarded by isinstance(key, tuple) (conditional-expression, `and` and statement guards).'
 )
 LEVEL_RULE = "one obligation per constructor / backend function / option use site"
 FLOORS = {"R1": 22, "R2": 4, "R3": 5, "R4": 2, "R5": 4, "R6": 3, "R7": 1}
@@ -572,6 +573,71 @@ def r6_groups(ctx):
         ctx.ob("R6", g, f"{name} passes self.check.groups", ok, "groups forwarded" if ok else "groups option not forwarded")
 
 
+def r6_group_keys_unwrapped_only_when_tuples(ctx):
+    """pandas yields 1-tuples as group keys when grouping by a *list* and scalars when grouping by a scalar (a callable
+    groupby may do either).  `_format_groupby_input` unwraps 1-tuples so that the function sees `{"A": ...}`; `len(key)` /
+    `key[0]` is only meaningful for a tuple, so every such use is guarded by `isinstance(key, tuple)` - as the loop that
+    applies `groups` already does.  Unguarded, integer / Timestamp keys raise TypeError (no len()) and the check function
+    is never called; str keys only work by accident ("A"[0] == "A")."""
+    cls = ctx.ix.cls(PCB)
+    f = cls.method("_format_groupby_input")
+    if f is None:
+        raise AnalysisError("_format_groupby_input missing")
+    gobj = f.positional[0] if f.positional and f.positional[0] not in ("self", "cls") else (f.positional[1] if len(f.positional) > 1 else "groupby_obj")
+    keys = set()
+    for n_ in ast.walk(f.node):
+        it, tgt = None, None
+        if isinstance(n_, ast.For):
+            it, tgt = n_.iter, n_.target
+        elif isinstance(n_, ast.comprehension):
+            it, tgt = n_.iter, n_.target
+        if it is not None and isinstance(it, ast.Name) and it.id == gobj and isinstance(tgt, ast.Tuple) and tgt.elts and isinstance(tgt.elts[0], ast.Name):
+            keys.add(tgt.elts[0].id)
+    if not keys:
+        raise AnalysisError("_format_groupby_input: iteration over the groupby object not found")
+    cfg = cfg_of(f.node)
+    n = 0
+    for x in ast.walk(f.node):
+        use = None
+        if isinstance(x, ast.Call) and isinstance(x.func, ast.Name) and x.func.id == "len" and x.args and isinstance(x.args[0], ast.Name) and x.args[0].id in keys:
+            use = x.args[0].id
+        elif isinstance(x, ast.Subscript) and isinstance(x.value, ast.Name) and x.value.id in keys and isinstance(x.ctx, ast.Load):
+            use = x.value.id
+        if use is None:
+            continue
+        n += 1
+        guards = []
+        child, p_ = x, getattr(x, "_parent", None)
+        while p_ is not None and not isinstance(p_, (ast.FunctionDef, ast.AsyncFunctionDef)):
+            if isinstance(p_, ast.IfExp) and child is not p_.test:
+                guards.append((p_.test, child is p_.body))
+            if isinstance(p_, ast.BoolOp) and isinstance(p_.op, ast.And):
+                i = p_.values.index(child) if child in p_.values else 0
+                guards += [(v, True) for v in p_.values[:i]]
+            if isinstance(p_, ast.stmt):
+                node = cfg.node_of(p_)
+                if node is not None:
+                    guards += list(cfg.guards(node.id))
+                    if isinstance(p_, (ast.If, ast.While)) and child is p_.test:
+                        pass
+            child, p_ = p_, getattr(p_, "_parent", None)
+        def is_tuple_test(t, pol):
+            conj = t.values if isinstance(t, ast.BoolOp) and isinstance(t.op, ast.And) else [t]
+            return pol and any(isinstance(v, ast.Call) and isinstance(v.func, ast.Name) and v.func.id == "isinstance" and len(v.args) == 2
+                               and txt(v.args[0]) == use and "tuple" in txt(v.args[1]) for v in conj)
+        ok = any(is_tuple_test(t, pol) for t, pol in guards)
+        comp = x
+        while comp is not None and not isinstance(comp, (ast.DictComp, ast.SetComp, ast.ListComp, ast.GeneratorExp, ast.For, ast.FunctionDef)):
+            comp = getattr(comp, "_parent", None)
+        where = {"DictComp": "the returned mapping", "SetComp": "the set of valid keys", "For": "the groups loop"}.get(type(comp).__name__, type(comp).__name__)
+        ctx.ob("R6", f, f"`{txt(x)}` on a group key ({where}) only when the key is a tuple", ok,
+               "guarded by isinstance(key, tuple)" if ok else
+               f"`{txt(x)}` is applied to every group key: a callable groupby that groups by a scalar (`lambda d: d.groupby('g')` with integer or Timestamp keys) raises "
+               "TypeError: object of type 'int' has no len(), reported as a CHECK_ERROR, and the check function is never called", f.loc(x))
+    if n < 2:
+        raise AnalysisError(f"_format_groupby_input: uses of the group key as a tuple found: {n}")
+
+
 def run(ctx):
     from ..defassign import check_modules
     check_modules(ctx, "R7", ('pandera/api/checks.py', 'pandera/api/base/checks.py', 'pandera/api/extensions.py', 'pandera/backends/pandas/checks.py', 'pandera/backends/polars/checks.py', 'pandera/backends/base/__init__.py'), "escapes the check instead of a verdict")
@@ -585,4 +651,5 @@ def run(ctx):
     r4_runner_verdict(ctx)
     r5_raise_warning(ctx)
     r6_groups(ctx)
+    r6_group_keys_unwrapped_only_when_tuples(ctx)
     ctx.assume("Series.map / DataFrame.apply(axis=1) / Expr.map_elements apply the function element-wise as documented by pandas/polars")
